@@ -68,6 +68,8 @@ func C07(c *Ctx) {
 	c07RuleVisit(c, g)
 	c07Wiring(c, g)
 	c07Errors(c, g)
+	r.Rule("C07-c", "the nullable pass visits every rule: ComputeNullables calls NullableVisit, unconditionally, in a loop over the rule map or over a list holding exactly its keys (a walk from the entry rule alone stops at the first non-nullable item of a sequence and leaves the rules behind it unvisited)")
+	everyRuleVisited(c, g, "C07-c")
 	r.Rule("C07-g", "the first-invocation graph is read-only for its consumers (see C08-f): a component search or leader search that prunes the shared graph hides the self-loops and cycles of the components handled later from the detection")
 	firstGraphReadOnly(c, "C07-g")
 }
